@@ -134,6 +134,8 @@ type drv struct {
 	hs     []merklize.Hasher
 	groups []*group
 	gen    *docgen.Gen
+	// ordering classes are reported once per document
+	docReported map[string]bool
 }
 
 func hasherSet() []merklize.Hasher {
@@ -300,6 +302,9 @@ type entryRes struct {
 	leaf    *big.Int
 	agree   bool
 	class   string // classifier of the disagreement ("" = agrees)
+	// unpaired: the sibling group's document array could not be tied to this entry
+	// (node arrays in non-canonical order, or no document value found for the leaf)
+	unpaired bool
 }
 
 func safeHash(h merklize.Hasher, dt string, raw any) (v *big.Int, msg string, panicked bool) {
@@ -356,6 +361,7 @@ func canonExact(f float64) bool {
 
 func (d *drv) docCase(stream string, doc []byte, hi int, ctxs map[string]json.RawMessage) bool {
 	h := d.hs[hi]
+	d.docReported = map[string]bool{}
 	in := &Input{Stream: stream, Doc: json.RawMessage(doc), Hasher: hi, Contexts: ctxs}
 	mz, mo := mzrun.Merklize(doc, merklize.WithHasher(h), merklize.WithDocumentLoader(d.loader))
 	d.rep.Count(stream + ":merklize:" + mo.Class)
@@ -380,7 +386,6 @@ func (d *drv) docCase(stream string, doc []byte, hi int, ctxs map[string]json.Ra
 
 	// sibling groups: entries whose path ends in an index share the prefix
 	byGroup := map[string][]*entryRes{}
-	byPattern := map[string][]*entryRes{}
 	var order []string
 	for _, r := range res {
 		parts := r.view.Parts
@@ -392,7 +397,6 @@ func (d *drv) docCase(stream string, doc []byte, hi int, ctxs map[string]json.Ra
 			order = append(order, gk)
 		}
 		byGroup[gk] = append(byGroup[gk], r)
-		byPattern[patternKey(parts)] = append(byPattern[patternKey(parts)], r)
 	}
 	for _, gk := range order {
 		rs := byGroup[gk]
@@ -401,7 +405,7 @@ func (d *drv) docCase(stream string, doc []byte, hi int, ctxs map[string]json.Ra
 			b, _ := rs[j].view.Parts[len(rs[j].view.Parts)-1].(int)
 			return a < b
 		})
-		d.classify(rs, byPattern, in)
+		d.classify(compacted, h, rs, in)
 		d.addGroup(mz, compacted, hi, rs, in)
 	}
 	return true
@@ -471,102 +475,6 @@ func shortDT(dt string) string {
 	return "other"
 }
 
-// classify assigns a narrow classifier to every disagreement of a sibling group
-// and reports it.
-func (d *drv) classify(rs []*entryRes, byPattern map[string][]*entryRes, in *Input) {
-	any := false
-	for _, r := range rs {
-		if !r.agree {
-			any = true
-		}
-	}
-	if !any {
-		d.rep.Count("group:agree")
-		return
-	}
-	last := rs[0].view.Parts
-	_, endsInIndex := last[len(last)-1].(int)
-	if endsInIndex && len(rs) >= 2 {
-		var hvs, leaves []*big.Int
-		for _, r := range rs {
-			hvs = append(hvs, r.hv)
-			leaves = append(leaves, r.leaf)
-		}
-		if sameMultiset(hvs, leaves) {
-			// D13: RawValue([p,i]) is the document's element i, leaf [p,i] holds the canonically i-th value
-			for _, r := range rs {
-				if !r.agree {
-					r.class = "c10-rawvalue-array-order"
-				}
-			}
-			c := *in
-			c.Path = rs[0].view.Parts
-			var dv, cv []string
-			for _, r := range rs {
-				dv = append(dv, jvOf(r.raw).String())
-				cv = append(cv, docgen.RenderGoValue(r.view.Value))
-			}
-			d.rep.Fail("c10-rawvalue-array-order", fmt.Sprintf("multi-valued property: document order %v, canonical (leaf) order %v: HashValue(RawValue([..,i])) != leaf [..,i] although the multisets agree", dv, cv), &c)
-			d.rep.Count("group:array-order")
-			return
-		}
-	}
-	for _, r := range rs {
-		if r.agree {
-			continue
-		}
-		c := *in
-		c.Path = r.view.Parts
-		if r.class == "" && hasMiddleIndex(r.view.Parts) {
-			var hvs, leaves []*big.Int
-			for _, q := range byPattern[patternKey(r.view.Parts)] {
-				hvs = append(hvs, q.hv)
-				leaves = append(leaves, q.leaf)
-			}
-			if len(hvs) >= 2 && sameMultiset(hvs, leaves) {
-				r.class = "c10-rawvalue-node-array-order"
-			}
-		}
-		if r.class == "" {
-			r.class = valueClass(r)
-		}
-		what := fmt.Sprintf("path %v datatype %s: RawValue=%v (%v) HashValue=%v (%s) leaf=%v entry value=%s",
-			r.view.Parts, r.dt, r.raw, r.rawErr, r.hv, r.hvErr, r.leaf, docgen.RenderGoValue(r.view.Value))
-		if r.class == "outside-quantifier" {
-			d.rep.Count("outside-quantifier:" + shortDT(r.dt) + ":" + string(jvOf(r.raw).kind))
-			continue
-		}
-		d.rep.Count("group:" + r.class)
-		d.rep.Fail(r.class, what, &c)
-	}
-}
-
-func valueClass(r *entryRes) string {
-	if r.rawErr != nil {
-		return "c10-rawvalue-error"
-	}
-	if r.hvPanic {
-		return "c10-hashvalue-panic"
-	}
-	v := jvOf(r.raw)
-	if v.kind == 'o' {
-		return "c10-rawvalue-nonscalar"
-	}
-	if !natural(r.dt, v) {
-		return "outside-quantifier"
-	}
-	if v.kind == 'n' {
-		f := math.Float64frombits(v.bits)
-		if kindImplied(r.dt) == 0 && f == 0 && math.Signbit(f) {
-			return "c10-negative-zero-boolean"
-		}
-		if kindImplied(r.dt) == 1 && f == math.Trunc(f) && !canonExact(f) {
-			return "c10-native-int-precision"
-		}
-	}
-	return "c10-disagree"
-}
-
 // addGroup records the sibling group as a case for the Coq model.
 func (d *drv) addGroup(mz *merklize.Merklizer, compacted map[string]any, hi int, rs []*entryRes, in *Input) {
 	g := &group{hasher: hi, pair: true, input: in}
@@ -600,8 +508,7 @@ func (d *drv) addGroup(mz *merklize.Merklizer, compacted map[string]any, hi int,
 		}
 		// the implementation-side oracle found that this path does not lead to the
 		// leaf's own document value (reported there): leaf pairing is impossible
-		if !r.agree && r.class != "c10-rawvalue-array-order" && r.class != "c10-native-int-precision" &&
-			r.class != "c10-negative-zero-boolean" && r.class != "outside-quantifier" {
+		if r.unpaired {
 			g.pair = false
 		}
 		kind, pv := -1, (*big.Int)(nil)
@@ -683,6 +590,9 @@ func (s *shardRec) need(hi int, dt string, v jv) {
 	case 'b':
 		hb("true")
 		hb("false")
+		if dt == xsd+"double" {
+			s.fr.AddStr(strconv.FormatBool(v.b))
+		}
 	}
 }
 
